@@ -62,13 +62,13 @@ def dm(d, f):
     return "%02d%02d" % ((d.day, d.month) if f < 2 else (d.month, d.day))
 
 
-def automan_row(rnd, f, code, sow, har, har_latest, fixed_sow, fixed_har, off1=None):
+def automan_row(rnd, f, code, sow, har, har_latest, fixed_sow, fixed_har, off1=None, org=None, off2=None):
     buf = [" "] * 185
     def put(pos, text):
         for i, ch in enumerate(text):
             buf[pos + i] = ch
     w1 = sow - datetime.timedelta(days=rnd.choice([0, 3, 10, 25]) if off1 is None else off1)
-    w2 = sow + datetime.timedelta(days=rnd.choice([0, 1, 5, 14, 30]))
+    w2 = sow + datetime.timedelta(days=rnd.choice([0, 1, 5, 14, 30]) if off2 is None else off2)
     put(0, "%-3s" % code)
     put(4, "0000" if fixed_sow else dm(w1, f)); put(9, "0000" if fixed_sow else dm(w2, f))
     put(14, "0000" if fixed_har else dm(har_latest, f))
@@ -84,21 +84,40 @@ def automan_row(rnd, f, code, sow, har, har_latest, fixed_sow, fixed_har, off1=N
     put(94, "%3d" % rnd.choice([0, 60, 120, 200])); put(100, "%3d" % rnd.choice([0, 80, 120])); put(106, "%3d" % rnd.choice([0, 0, 60]))
     put(112, rnd.choice(["S0 ", "S1 ", "S2 ", "100", "0  "])); put(119, rnd.choice(["S3 ", "S2 ", "140", "0  "])); put(127, rnd.choice(["S4 ", "0  ", "160"]))
     put(135, "%2d" % rnd.choice([5, 3, 7]))
-    put(143, "---"); put(149, "  0"); put(156, "000")
+    if org:
+        put(143, "%-3s" % org[0]); put(149, "%3d" % org[1]); put(156, org[2] + "%-2d" % org[3])
+    else:
+        put(143, "---"); put(149, "  0"); put(156, "000")
     put(163, "%3d" % rnd.choice([40, 60, 80, 95])); put(170, "%3d" % rnd.choice([30, 60, 90])); put(177, "%3d" % rnd.choice([5, 10, 20, 50]))
     return "".join(buf).rstrip() + " ", (w1, w2)
 
 
-def make_case(rnd, idx):
+ORG_FERT = ["RM", "RG", "SM", "HM", "KSL", "BAK", "FM", "XXQ"]
+
+
+def make_case(rnd, idx, force_sw=None, org_p=0.35, skip=False):
     f = idx % 4
     sw = (idx // 4) % 16 if idx < 64 else rnd.randrange(16)
+    if force_sw is not None:
+        sw = force_sw
     automan, autofert, autoirri, autohar = bool(sw & 1), bool(sw & 2), bool(sw & 4), bool(sw & 8)
     y0 = rnd.randrange(1980, 1988)
     nyears = 2 if rnd.random() < 0.6 else 3
     begin = datetime.date(y0, rnd.choice([7, 8]), rnd.randrange(1, 29))
     end = datetime.date(y0 + nyears, rnd.choice([11, 12]), rnd.randrange(2, 29))
-    crops = [(rnd.choice(["SM", "WW", "SOY", "WG"]), None, begin, None)]
+    prev_t = [rnd.choice(["H", "S"])]
+    def gen_org():
+        # the after-sowing variant of an entry is governed by the timing letter of the PREVIOUS entry (nitro.go:92), so
+        # runs of equal letters are generated
+        if autofert and rnd.random() < org_p:
+            t = prev_t[0] if rnd.random() < 0.7 else rnd.choice(["H", "S"])
+            prev_t[0] = t
+            return (rnd.choice(ORG_FERT), rnd.choice([200, 150, 30, 5]), t, rnd.choice([0, 1, 1, 3, 10, 25]))
+        return None
+    org0 = gen_org()
+    crops = [(rnd.choice(["SM", "WW", "SOY", "WG"]), None, begin, {"org": org0})]
     rows = {}
+    skipped_any = False
     last_free = begin                      # day after which the next sowing window may open
     y = y0                                 # year of the last harvest
     margin = datetime.timedelta(days=27)
@@ -119,32 +138,57 @@ def make_case(rnd, idx):
         code, sow, har = cand[0] if len(cand) >= 2 and (off1 is not None or rnd.random() < 0.5) else cand[-1]
         if code == "ZR" and off1 is not None:
             off1 = None
+        skip_here = False
+        if skip and automan and autofert and not skipped_any and len(crops) >= 2 and crops[-1][3]["org"] and crops[-1][3]["org"][2] == "H":
+            # crop-skip scenario (outside C16's quantifier): this entry's sowing window ends before the harvest of the
+            # preceding entry, which carries organic fertiliser "H": the entry is passed over at that harvest
+            # (the dates of the rotation file must ascend, so only the automan window lies before that harvest)
+            prev_har = crops[-1][2]
+            sow = prev_har + datetime.timedelta(days=rnd.choice([3, 6]))
+            anchor = prev_har - datetime.timedelta(days=rnd.choice([2, 12, 20, 35]))
+            har = datetime.date(prev_har.year + 1, rnd.choice([7, 8]), rnd.randrange(1, 25))
+            code = rnd.choice(WINTER)
+            off1 = 3
+            skip_here = skipped_any = anchor.year == sow.year
         if har > end - datetime.timedelta(days=45) or code in rows:
             break
         fixed_sow = automan and rnd.random() < 0.15
         fixed_har = autohar and rnd.random() < 0.2
         latest = har if fixed_har else har + datetime.timedelta(days=rnd.choice([0, 5, 20, 35]))
-        row, (w1, w2) = automan_row(rnd, f, code, sow, har, latest, fixed_sow, fixed_har, off1)
+        org = gen_org()
+        if skip and automan and autofert and not skipped_any and len(crops) == 1 and not skip_here:
+            org = (rnd.choice(ORG_FERT[:6]), 150, "H", rnd.choice([0, 1, 5]))
+        if skip_here:
+            fixed_sow = False
+        row, (w1, w2) = automan_row(rnd, f, code, anchor if skip_here else sow, har, latest, fixed_sow, fixed_har, off1, org, 2 if skip_here else None)
         rows[code] = row
-        crops.append((code, sow, har, {"w1": w1, "w2": w2, "latest": latest, "fixed_sow": fixed_sow, "fixed_har": fixed_har}))
+        crops.append((code, sow, har, {"w1": w1, "w2": w2, "latest": latest, "fixed_sow": fixed_sow, "fixed_har": fixed_har, "org": org,
+                                       "skip": skip_here}))
         last_free = latest if autohar else har
         y = har.year
     if crops[0][0] not in rows:
-        rows[crops[0][0]], _ = automan_row(rnd, f, crops[0][0], begin, begin, begin, True, True)
+        rows[crops[0][0]], _ = automan_row(rnd, f, crops[0][0], begin, begin, begin, True, True, None, org0)
+    else:
+        crops[0] = crops[0][:3] + ({"org": None},)
     return {"idx": idx, "fmt": f, "begin": begin, "end": end, "B": daynum(begin), "E": daynum(end), "crops": crops, "rows": rows,
             "sw": (automan, autofert, autoirri, autohar), "fid": "R%d" % rnd.randrange(1, 9),
             "soil": rnd.choice(["001", "041", "075", "160"]), "fcode": rnd.choice(["109_120", "109_121"])}
 
 
-def write_project(ex, case):
-    name = "c16_%d" % case["idx"]
+def write_project(ex, case, prefix="c16_"):
+    name = "%s%d" % (prefix, case["idx"])
+    case["name"] = name
     src, dst = os.path.join(ex, "project", "ex1"), os.path.join(ex, "project", name)
     shutil.rmtree(dst, ignore_errors=True)
     shutil.copytree(src, dst)
     for fn in os.listdir(dst):
-        if "_ex1" in fn:
+        if fn.startswith("init_"):
+            os.remove(os.path.join(dst, fn))      # no measurement file (other checks add one to the scratch copy of ex1)
+        elif "_ex1" in fn:
             os.rename(os.path.join(dst, fn), os.path.join(dst, fn.replace("_ex1", "_" + name)))
     f, fid = case["fmt"], case["fid"]
+    # the shipped measurement file (other checks put a measurement day into the scratch copy of ex1; its dates are EN-long)
+    shutil.copy(os.path.join(REPO, "examples", "project", "ex1", "endit_ex1.txt"), os.path.join(dst, "endit_%s.txt" % name))
     open(os.path.join(dst, "managementout_conf.yml"), "w").write(MGMT_CONF)
     open(os.path.join(dst, "cropout_conf.yml"), "w").write(CROPOUT)
     open(os.path.join(dst, "fert_%s.txt" % name), "w").write("Field_ID  N   Frt date\nend\n")
@@ -152,9 +196,9 @@ def write_project(ex, case):
     open(os.path.join(dst, "irr_%s.txt" % name), "w").write("Field_ID  Ir N03 date\n          mm mg/l\nend\n")
     open(os.path.join(dst, "poly_%s.txt" % name), "w").write("Polyg SID  Field_ID  GH GL Ir comment\n10001 001 %s    99 99 0 own\nend\n" % fid)
     rows = []
-    for k, (code, sow, har, _) in enumerate(case["crops"]):
+    for k, (code, sow, har, w) in enumerate(case["crops"]):
         sw = fmt_date(sow, f) if sow else fmt_date(har - datetime.timedelta(days=120), f)
-        rows.append("%-9s %-3s %s %s %s 0" % (fid, code, sw, fmt_date(har, f), "080 050" if k == 0 else "000 000"))
+        rows.append("%-9s %-3s %s %s %s %d" % (fid, code, sw, fmt_date(har, f), "080 050" if k == 0 else "000 000", 1 if (w or {}).get("org") else 0))
     open(os.path.join(dst, "crop_%s.txt" % name), "w").write(
         "Field_ID    crp  sowing harvst Rex yld autorg variety comment\n" + "".join(r + "\n" for r in rows) + "end\n")
     hdr = open(os.path.join(src, "automan.txt")).read().split("\n")[0]
@@ -175,19 +219,22 @@ def parse_log_date(tok, f):
     return daynum(datetime.date(y, m, d))
 
 
-def _run(ctx):
-    if "run" in _cache:
-        return _cache["run"]
+def nrentw_of(code):
+    """number of development stages of a shipped crop (line 19 of PARAM.<crop>, columns 66..)"""
+    if code not in _cache.setdefault("nrentw", {}):
+        ln = open(os.path.join(REPO, "examples", "parameter", "PARAM." + code), errors="replace").read().split("\n")[18]
+        _cache["nrentw"][code] = int(ln[65:].split()[0])
+    return _cache["nrentw"][code]
+
+
+def run_cases(ctx, cases, prefix):
     ex = waterlib.prepare_examples(ctx, extreme_rain=False)
-    rnd = random.Random(ctx.seed * 104729 + 16)
-    n = 3000 if ctx.thorough else 64
-    cases = [make_case(rnd, i) for i in range(n)]
-    lines = [write_project(ex, c) for c in cases]
-    lf = os.path.join(ctx.work, "c16_lines.txt")
+    lines = [write_project(ex, c, prefix) for c in cases]
+    lf = os.path.join(ctx.work, prefix + "lines.txt")
     open(lf, "w").write("\n".join(lines) + "\n")
     rc, recs, orc, other, err = waterlib.run_harness(ctx, "c16", ["-work", ex, "-lines", lf, "-slots", "8"])
     for c in cases:
-        c.update(init=None, final=None, run=None, sow=[], hdec=[], harv=[], airr=[], an=[], log=None, crec=None)
+        c.update(init=None, final=None, run=None, sow=[], hdec=[], harv=[], airr=[], af=[], log=None, crec=None)
     for r in recs:
         c = cases[r["line"]]
         if r["k"] in ("init", "final", "run"):
@@ -195,7 +242,7 @@ def _run(ctx):
         else:
             c[r["k"]].append(r)
     for c in cases:
-        d = os.path.join(ex, "R", "c16_%d" % c["idx"])
+        d = os.path.join(ex, "R", c["name"])
         if os.path.isdir(d):
             for fn in os.listdir(d):
                 if fn.startswith("M") and fn.endswith(".txt"):
@@ -204,8 +251,35 @@ def _run(ctx):
                 if fn.startswith("C"):
                     rows = [ln.split() for ln in open(os.path.join(d, fn)).read().split("\n") if ln.strip()]
                     c["crec"] = [(r[0], int(r[1]), int(r[2]), r[3]) for r in rows if len(r) >= 4 and r[1].isdigit() and r[2].isdigit()]
-    _cache["run"] = (rc, cases, err, ex)
+    return rc, cases, err, ex
+
+
+def _run(ctx):
+    if "run" in _cache:
+        return _cache["run"]
+    rnd = random.Random(ctx.seed * 104729 + 16)
+    n = 3000 if ctx.thorough else 64
+    cases = [make_case(rnd, i) for i in range(n)]
+    # crop-skip scenarios (automatic sowing + automatic fertilisation with organic fertiliser "H")
+    nskip = 40 if ctx.thorough else 4
+    cases += [make_case(rnd, n + i, force_sw=rnd.choice([3, 7, 11, 15]), org_p=1.0, skip=True) for i in range(nskip)]
+    _cache["run"] = run_cases(ctx, cases, "c16_")
     return _cache["run"]
+
+
+def org_run(ctx):
+    """runs with automatic fertilisation and organic fertiliser on every entry (used by C10: organic payload, crop skip)"""
+    if "org" in _cache:
+        return _cache["org"]
+    rnd = random.Random(ctx.seed * 7 + 1016)
+    n = 400 if ctx.thorough else 14
+    cases = [make_case(rnd, i, force_sw=rnd.choice([2, 3, 3, 10, 11, 6, 15]), org_p=0.9, skip=(i % 3 == 0)) for i in range(n)]
+    _cache["org"] = run_cases(ctx, cases, "c10org_")
+    return _cache["org"]
+
+
+def has_skip(cs):
+    return any(h["adv"] >= 2 for h in cs["harv"])
 
 
 def _events(cs):
@@ -224,32 +298,52 @@ def _events(cs):
 
 HDR = ["From Coq Require Import ZArith List Bool Floats Uint63.", "From Hermes Require Import Num RotationModel C16Corr.",
        "Import ListNotations.", "Open Scope float_scope."]
+HDR10 = ["From Coq Require Import ZArith List Bool Floats Uint63 String.", "From Hermes Require Import Num SchedModel C10Corr.",
+         "Import ListNotations.", "Open Scope float_scope."]
+KIND = {"sow": "automatic-sowing-decision", "hdec": "automatic-harvest-decision (some trigger value)", "hdec2": "automatic-harvest-decision (modelled condition)",
+        "airr": "automatic-irrigation (decision and amount on the probed state)", "af": "automatic-fertilisation call",
+        "hcur": "harvest cursor / organic date / crop skip", "rot": "rotation-event-sequence", "odueng": "organic fertiliser split (dueng)"}
+AF_MASK = ["DSUMM", "NFERTSIM", "NDOY1..3", "ZTDG[AKF]", "which organic application fired"]
 
 
 def u(x):
     return "%d%%uint63" % x
 
 
-def correspond(ctx):
-    c = Corr()
-    rc, cases, err, ex = _run(ctx)
-    if rc != 0:
-        c.mismatches.append({"kind": "harness-crash", "stderr": err[-1500:]})
-        return c
-    sow, hdec, airr, an, rot = [], [], [], [], []
+def fl(x):
+    return waterlib.fl(x)
+
+
+def fls(l):
+    return "[" + "; ".join(fl(x) for x in l) + "]"
+
+
+def sws_of(cs):
+    return "".join("MFIH"[i] if cs["sw"][i] else "-" for i in range(4))
+
+
+def org_dgmg(cs, k):
+    o = (cs["crops"][k][3] or {}).get("org")
+    return o
+
+
+def build_records(cases, c, table=None):
+    """Coq terms of every probed decision; returns the groups [(name, [(term, case, record)], check, type, header)]"""
+    from props import c10
+    sow, hdec, hdec2, airr, af, hcur, rot, odu = [], [], [], [], [], [], [], []
     for cs in cases:
-        sws = "".join("MFIH"[i] if cs["sw"][i] else "-" for i in range(4))
+        sws = sws_of(cs)
         if cs["init"] is None or cs["run"] is None or not cs["run"]["success"] or cs["log"] is None or cs["final"] is None:
-            c.mismatches.append({"kind": "run-failed", "case": cs["idx"], "switches": sws, "err": (cs["run"] or {}).get("err", "no run record"),
+            c.mismatches.append({"kind": "run-failed", "case": cs["name"], "switches": sws, "err": (cs["run"] or {}).get("err", "no run record"),
                                  "crops": [(a, str(s), str(h)) for a, s, h, _ in cs["crops"]]})
             continue
         c.bump("switches " + sws); c.bump(FMTS[cs["fmt"]])
         ini = cs["init"]
+        automan, autofert, _, autohar = cs["sw"]
         # window arrays after Input against the generated tables (python twin of the automan reader)
         for k, (code, s, h, w) in enumerate(cs["crops"]):
             if k == 0:
                 continue
-            automan, _, _, autohar = cs["sw"]
             exp_s = (daynum(s) if (not automan or w["fixed_sow"]) else 0)
             exp_s1 = daynum(s) - 1 if w["fixed_sow"] else daynum(w["w1"])
             exp_s2 = daynum(s) if w["fixed_sow"] else daynum(w["w2"])
@@ -258,35 +352,83 @@ def correspond(ctx):
             got = (ini["saat"][k], ini["ernte"][k], ini["ernte2"][k]) + ((ini["saat1"][k], ini["saat2"][k]) if automan else ())
             want = (exp_s, exp_e if not (autohar and w["fixed_har"]) else ini["ernte"][k], exp_e2) + ((exp_s1, exp_s2) if automan else ())
             if got != want:
-                c.mismatches.append({"kind": "window-arrays", "case": cs["idx"], "switches": sws, "entry": k, "crop": code,
+                c.mismatches.append({"kind": "window-arrays", "case": cs["name"], "switches": sws, "entry": k, "crop": code,
                                      "observed (SAAT, ERNTE, ERNTE2[, SAAT1, SAAT2])": got, "expected": want, "automan_row": cs["rows"][code]})
+            # organic fertiliser slots after Input: ODU / timing / day offset from the files, split from the fertiliser table
+            if autofert:
+                o = w.get("org")
+                got_o = (ini["odu"][k] != "0x0p+00", ini["orgtime"][k], ini["orgdoy"][k], ini["dgart"][k]) if o else (ini["odu"][k] != "0x0p+00",)
+                want_o = (True, o[2], o[3], o[0]) if o else (False,)
+                if got_o != want_o:
+                    c.mismatches.append({"kind": "organic-slot", "case": cs["name"], "entry": k, "observed": got_o, "expected": want_o})
+                if o:
+                    odu.append(('("%s"%%string, %s, (%s, %s, %s, %s))' % (o[0], c10.hexf(float(o[1])), fl(ini["ndir"][k]), fl(ini["nh4n"][k]), fl(ini["nsas"][k]), fl(ini["nlas"][k])), cs, {"entry": k, "org": o}))
+                elif any(ini[a][k] != "0x0p+00" for a in ("ndir", "nsas", "nlas")):
+                    c.mismatches.append({"kind": "organic-slot", "case": cs["name"], "entry": k, "what": "no organic fertiliser but a non-zero split"})
         for r in cs["sow"]:
-            sow.append(("(%s, %s, %s, %s, %s, %s)" % (u(r["zeit"]), u(r["before"]), u(r["saat1"]), u(r["saat2"]), u(r["prev"]), u(r["after"])), cs, r))
+            sow.append(("((%s, %s, %s, %s, %s, %s), mk_sow_env %s %s (%s, (%s, %s)))"
+                        % (u(r["zeit"]), u(r["before"]), u(r["saat1"]), u(r["saat2"]), u(r["prev"]), u(r["after"]), u(r["tagidx"]), fls(r["temps"]),
+                           ", ".join(fl(r[a]) for a in ("tagnum", "window", "temp", "tjahrsum", "tjahr", "tslmin", "tslmax", "wg00", "regen", "regen_prev", "dz", "wmin0", "wnor0")),
+                           fl(r["minmoi"]), fl(r["maxmoi"])), cs, r))
         for r in cs["hdec"]:
-            hdec.append(("(%s, %s, (%s, %s, %s, %s), (%s, %s, %s, %s))" % ((u(r["zeit"]), waterlib.b(r["called"])) + tuple(u(x) for x in r["e"]) + tuple(u(x) for x in r["next"])), cs, r))
+            e = r.get("env")
+            code = cs["crops"][r["akf"]][0] if r["akf"] < len(cs["crops"]) else None
+            if e and r["called"] and r["e"][0] == 0 and e["num"] >= 2 and code:
+                hdec2.append(("((%s, (%s), (%s)), mk_harv_env %s %s (%s) (%s))"
+                              % (u(r["zeit"]), ", ".join(u(x) for x in r["e"]), ", ".join(u(x) for x in r["next"]), u(e["num"]), u(nrentw_of(code)),
+                                 ", ".join(fl(e[a]) for a in ("sum0", "tsum0", "sum", "tsum", "tsum_next", "wg00", "regen", "dz", "wmin0", "wnor0")),
+                                 ", ".join(fl(e[a]) for a in ("minhmoi", "maxhmoi", "tagnum", "r1", "r2", "r3", "rainlim", "rainact"))), cs, r))
+            else:
+                hdec.append(("(%s, %s, (%s, %s, %s, %s), (%s, %s, %s, %s))" % ((u(r["zeit"]), waterlib.b(r["called"])) + tuple(u(x) for x in r["e"]) + tuple(u(x) for x in r["next"])), cs, r))
         for r in cs["airr"]:
-            airr.append(("(%s, %s, (%s, %s, %s), (%s, %s, %s))" % (u(r["zeit"]), u(r["saat"]), waterlib.fl(r["intwick"]), waterlib.fl(r["irrst1"]), waterlib.fl(r["irrst2"]),
-                                                                     waterlib.fl(r["defzsum"]), waterlib.fl(r["irrmax"]), waterlib.fl(r["amount"])), cs, r))
-        for r in cs["an"]:
-            an.append(("(%s, %s, [%s])" % (waterlib.fl(r["pre"]), waterlib.fl(r["post"]), "; ".join("(%s, %s)" % (waterlib.fl(a), waterlib.fl(b)) for a, b in r["cand"])), cs, r))
+            airr.append(("((%s, %s, %s, %s), (%s), (%s, %s, %s), %s)"
+                         % (u(r["zeit"]), u(r["saat"]), u(r["wurzmax"]), waterlib.b(r["fired"]),
+                            ", ".join(fl(r[a]) for a in ("intwick", "irrst1", "irrst2", "irrmax", "irrlow", "irrdep", "regen", "dz", "rain1", "rain2")),
+                            fls(r["wg0"]), fls(r["w"]), fls(r["wmin"]), fl(r.get("amount", "0x0p+00"))), cs, r))
+        for r in cs["af"]:
+            af.append(("((%s, %s, %s, %s), (%s, %s, %s, %s, %s), (%s), (%s, %s, %s, %s), (%s, %s, %s), (%s, %s, %s, %s))"
+                       % (u(r["zeit"]), u(r["akf"]), u(r["saat"]), u(r["wurz"]),
+                          waterlib.b(r["prev_h"]), u(r["ztdg_prev"]), waterlib.b(r["cur_s"]), u(r["orgdoy"]), u(r["ztdg"]),
+                          ", ".join(fl(r[a]) for a in ("intwick", "tagnum", "regen", "regen_prev", "regen_next")),
+                          fls(r["t5"]), fls(r["c1"]), fls(r["ndem"]), fls(r["ndoy"]), fls(r["pay_prev"]), fls(r["pay_cur"]), fls(r["pools"]),
+                          fls(r["post"]), u(r["ztdg_post"]), waterlib.b(r["h_fire"]), waterlib.b(r["s_fire"])), cs, r))
+        for r in cs["harv"]:
+            hcur.append(("((%s, %s, %s, %s, %s, %s, %s), (%s, %s, %s))"
+                         % (u(r["zeit"]), u(r["akf"]), waterlib.b(r["org_h"]), u(r["orgdoy"]), u(r["saat2_next"]), waterlib.b(r["automan"]), u(r["ztdg_before"]),
+                            u(r["adv"]), u(r["ztdg_after"]), u(max(r["einte_next"], 0))), cs, r))
         fin = cs["final"]
-        rot.append(("(%s, %s, ([%s], [%s], [%s]), [%s])" % (u(ini["beginn"]), u(ini["ende"]), "; ".join(u(x) for x in fin["saat"]), "; ".join(u(x) for x in fin["ernte"]),
-                                                           "; ".join(u(x) for x in fin["ernte2"]), "; ".join("(%s, %s, %s)" % (u(z), u(kd), u(k)) for z, kd, k in _events(cs))), cs, None))
-    groups = [("sow", sow, "sow_check", "(int * int * int * int * int * int)"),
-              ("hdec", hdec, "hdec_check", "(int * bool * (int * int * int * int) * (int * int * int * int))"),
-              ("airr", airr, "airr_check", "(int * int * (float * float * float) * (float * float * float))"),
-              ("an", an, "an_check", "(float * float * list (float * float))"),
-              ("rot", rot, "rot_check", "(int * int * (list int * list int * list int) * list (int * int * int))")]
+        if not has_skip(cs):
+            rot.append(("(%s, %s, ([%s], [%s], [%s]), [%s])" % (u(ini["beginn"]), u(ini["ende"]), "; ".join(u(x) for x in fin["saat"]), "; ".join(u(x) for x in fin["ernte"]),
+                                                               "; ".join(u(x) for x in fin["ernte2"]), "; ".join("(%s, %s, %s)" % (u(z), u(kd), u(k)) for z, kd, k in _events(cs))), cs, None))
+        else:
+            c.bump("runs-with-crop-skip")
+    groups = [("sow", sow, "sow_check2", "((int * int * int * int * int * int) * sow_env float)", HDR),
+              ("hdec", hdec, "hdec_check", "(int * bool * (int * int * int * int) * (int * int * int * int))", HDR),
+              ("hdec2", hdec2, "hdec_check2", "((int * (int * int * int * int) * (int * int * int * int)) * harv_env float)", HDR),
+              ("airr", airr, "airr_check2", "((int * int * int * bool) * (float * float * float * float * float * float * float * float * float * float) * (list float * list float * list float) * float)", HDR),
+              ("af", af, "af_check", "((int * int * int * int) * (bool * int * bool * int * int) * (float * float * float * float * float) * (list float * list float * list float * list float) * (list float * list float * list float) * (list float * int * bool * bool))", HDR),
+              ("hcur", hcur, "hcur_check", "((int * int * bool * int * int * bool * int) * (int * int * int))", HDR),
+              ("rot", rot, "rot_check", "(int * int * (list int * list int * list int) * list (int * int * int))", HDR)]
+    if table is not None:
+        groups.append(("odueng", odu, "(dueng_check tab)", "(string * float * (float * float * float * float))",
+                       HDR10 + ["Definition tab : list (frow float) := %s." % c10._table_coq(table)]))
+    return groups
+
+
+def eval_groups(ctx, c, groups, prefix, only=None):
     items, index = [], {}
-    for name, lst, chk, ty in groups:
-        shard = max(1, (len(lst) + 7) // 8)
+    for name, lst, chk, ty, hdr in groups:
+        if only is not None and name not in only:
+            continue
+        shard = max(1, (len(lst) + 5) // 6)
         for k in range(0, len(lst), shard):
-            nm = "Cases_C16_%s_%d" % (name, k // shard)
+            nm = "Cases_%s_%s_%d" % (prefix, name, k // shard)
             index[nm] = (name, lst, k)
-            body = HDR + ["Definition cases : list %s := %s." % (ty, chunked_list([t[0] for t in lst[k:k + shard]], ty, 200)),
+            body = hdr + ["Definition cases : list %s := %s." % (ty, chunked_list([t[0] for t in lst[k:k + shard]], ty, 100)),
                           "Definition M := Eval vm_compute in mismatches %s %d%%nat cases." % (chk, k), "Print M."]
             items.append((nm, "\n".join(body) + "\n"))
         c.dist[name + "-records"] = len(lst)
+        c.cases += len(lst)
     for nm, rc3, o in ctx.coq_eval_many(items, timeout=900):
         m = re.search(r"M\s*=\s*(.*?)\s*:\s*list \(nat \* nat\)", o, re.S)
         if rc3 != 0 or not m:
@@ -298,21 +440,41 @@ def correspond(ctx):
         name, lst, _ = index[nm]
         for idx, mask in pairs:
             t, cs, r = lst[int(idx)]
-            c.mismatches.append({"kind": {"sow": "automatic-sowing-decision", "hdec": "automatic-harvest-decision", "airr": "automatic-irrigation",
-                                          "an": "automatic-N-amount", "rot": "rotation-event-sequence"}[name], "mask": int(mask),
-                                 "case": cs["idx"], "switches": "".join("MFIH"[i] if cs["sw"][i] else "-" for i in range(4)), "record": r if r else t[:600],
-                                 "crops": [(a, str(s), str(h)) for a, s, h, _ in cs["crops"]]})
-    # how sharp: decisions that do not depend on the trigger
-    sharp = sum(1 for _, cs, r in sow if r["zeit"] < r["saat1"] or r["zeit"] == r["saat2"] or r["zeit"] <= r["prev"] + 4)
-    c.dist["sow-records-trigger-independent"] = sharp
-    c.dist["sowings-set"] = sum(1 for _, cs, r in sow if r["after"] != r["before"])
-    c.dist["harvests-decided"] = sum(1 for _, cs, r in hdec if r["e"][0] == 0 and r["e"][2] != 0)
-    c.cases = len(sow) + len(hdec) + len(airr) + len(an) + len(rot)
-    c.nontrivial = len(set((cs["sw"], tuple(a for a, _, _, _ in cs["crops"]), cs["fmt"]) for _, cs, _ in rot))
-    c.samples = ["c16_%d switches=%s %s crops=%s" % (cs["idx"], "".join("MFIH"[i] if cs["sw"][i] else "-" for i in range(4)), FMTS[cs["fmt"]],
-                                                     [(a, str(s), str(h)) for a, s, h, _ in cs["crops"]]) for _, cs, _ in rot[:4]]
-    ctx.extra["runs"] = len(rot)
-    ctx.extra["simulated_days"] = sum(cs["run"]["days"] for _, cs, _ in rot)
+            mm = {"kind": KIND[name], "mask": int(mask), "case": cs["name"], "switches": sws_of(cs), "record": r if r else t[:600],
+                  "crops": [(a, str(s), str(h)) for a, s, h, _ in cs["crops"]]}
+            if name == "af":
+                mm["differs"] = [AF_MASK[b] for b in range(5) if int(mask) >> b & 1]
+            c.mismatches.append(mm)
+
+
+def correspond(ctx):
+    c = Corr()
+    rc, cases, err, ex = _run(ctx)
+    if rc != 0:
+        c.mismatches.append({"kind": "harness-crash", "stderr": err[-1500:]})
+        return c
+    from props import c10
+    groups = build_records(cases, c, c10.read_table())
+    eval_groups(ctx, c, groups, "C16")
+    g = {name: lst for name, lst, _, _, _ in groups}
+    for _, cs, r in g["af"]:
+        if r["replay"] == "differs":
+            c.mismatches.append({"kind": "organic-payload-replay", "case": cs["name"], "what": "Nitro on the pre-state with the organic split added "
+                                 "by hand (and the organic branch disabled) does not reproduce the real post-state", "record": r})
+    c.dist["sowings-set"] = sum(1 for _, cs, r in g["sow"] if r["after"] != r["before"])
+    c.dist["sow-days-condition-true"] = sum(1 for _, cs, r in g["sow"] if r["after"] == r["zeit"] and r["zeit"] != r["saat2"])
+    c.dist["harvests-decided"] = sum(1 for _, cs, r in g["hdec"] + g["hdec2"] if r["e"][0] == 0 and r["e"][2] != 0)
+    c.dist["harvests-by-condition"] = sum(1 for _, cs, r in g["hdec2"] if r["e"][0] == 0 and r["e"][2] == r["zeit"])
+    c.dist["irrigations"] = sum(1 for _, cs, r in g["airr"] if r["fired"])
+    c.dist["mineral-doses"] = sum(1 for _, cs, r in g["af"] if r["post"][1] != r["pools"][4])
+    c.dist["organic-after-harvest"] = sum(1 for _, cs, r in g["af"] if r["h_fire"])
+    c.dist["organic-after-sowing"] = sum(1 for _, cs, r in g["af"] if r["s_fire"])
+    c.dist["crop-skips"] = sum(1 for _, cs, r in g["hcur"] if r["adv"] >= 2)
+    ok = [cs for cs in cases if cs.get("final")]
+    c.nontrivial = len(set((cs["sw"], tuple(a for a, _, _, _ in cs["crops"]), cs["fmt"]) for cs in ok))
+    c.samples = ["%s switches=%s %s crops=%s" % (cs["name"], sws_of(cs), FMTS[cs["fmt"]], [(a, str(s), str(h), (w or {}).get("org")) for a, s, h, w in cs["crops"]]) for cs in ok[:4]]
+    ctx.extra["runs"] = len(ok)
+    ctx.extra["simulated_days"] = sum(cs["run"]["days"] for cs in ok)
     return c
 
 
@@ -337,14 +499,17 @@ def oracle(ctx, search):
         sowlog = [(z, p.get("Crop", "").strip()) for (z, k, p) in cs["log"] if k == "sowing"]
         harlog = [(z, p.get("Crop", "").strip()) for (z, k, p) in cs["log"] if k == "harvest"]
         crops = cs["crops"]
+        skipped_run = has_skip(cs)       # crop-skip scenario: outside the property's quantifier (window ended before the previous harvest)
+        if skipped_run:
+            crops = crops[:1]
         # rotation order: k-th sowing / harvest / crop record belongs to rotation entry k
-        for name, lst in (("sowing", sowlog), ("harvest", harlog)):
+        for name, lst in (() if skipped_run else (("sowing", sowlog), ("harvest", harlog))):
             want = [c_[0] for c_ in crops[1:1 + len(lst)]]
             if [c_ for _, c_ in lst] != want or len(lst) > len(crops) - 1:
                 fail("rotation-order", "%s events are for crops %s, the rotation says %s" % (name, [c_ for _, c_ in lst], want))
-        if len(cs["crec"]) != len(harlog):
+        if not skipped_run and len(cs["crec"]) != len(harlog):
             fail("crop-records", "%d crop records for %d harvests" % (len(cs["crec"]), len(harlog)))
-        for k, (sd, hy, hdoy, code) in enumerate(cs["crec"], start=1):
+        for k, (sd, hy, hdoy, code) in enumerate([] if skipped_run else cs["crec"], start=1):
             checked += 1
             if k >= len(crops):
                 break
@@ -386,6 +551,8 @@ def oracle(ctx, search):
                 elif hz > latest:
                     fail("harvest-latest", "entry %d (%s): harvested on %s, latest date %s" % (k, code, numday(hz), w["latest"]))
         for r in cs["airr"]:
+            if not r["fired"]:
+                continue
             checked += 1
             iw, s1, s2 = go_hex(r["intwick"]), go_hex(r["irrst1"]), go_hex(r["irrst2"])
             amt, mx = go_hex(r["amount"]), go_hex(r["irrmax"])
@@ -394,13 +561,13 @@ def oracle(ctx, search):
                      % (numday(r["zeit"]), iw, s1, s2, r["saat"] and numday(r["saat"])))
             if amt > mx or amt < 0 or r["adv"] != 1:
                 fail("irrigation-above-maximum", "day %s: automatic irrigation of %r mm, configured daily maximum %r mm" % (numday(r["zeit"]), amt, mx))
-            if abs((go_hex(r["regen_post"]) - go_hex(r["regen_pre"])) * 10 - amt) > 1e-9 * (1 + amt):
-                fail("irrigation-amount", "day %s: rain of the day rose by %r cm for an irrigation of %r mm" % (numday(r["zeit"]), go_hex(r["regen_post"]) - go_hex(r["regen_pre"]), amt))
+            if abs((go_hex(r["regen_post"]) - go_hex(r["regen"])) * 10 - amt) > 1e-9 * (1 + amt):
+                fail("irrigation-amount", "day %s: rain of the day rose by %r cm for an irrigation of %r mm" % (numday(r["zeit"]), go_hex(r["regen_post"]) - go_hex(r["regen"]), amt))
         if not autoirri and [1 for (z, k, p) in cs["log"] if k == "irrigation"]:
             fail("irrigation-unscheduled", "irrigation events although automatic irrigation is off and the irrigation file is empty")
         if autoirri:
             for (z, k, p) in cs["log"]:
-                if k == "irrigation" and z not in [r["zeit"] for r in cs["airr"]]:
+                if k == "irrigation" and z not in [r["zeit"] for r in cs["airr"] if r["fired"]]:
                     fail("irrigation-unobserved", "irrigation log line on %s without a probed irrigation" % numday(z))
         if autofert:
             for (z, k, p) in cs["log"]:
@@ -409,21 +576,86 @@ def oracle(ctx, search):
                     nd = go_hex(p["Ndirect"]) if "Ndirect" in p else 0.0
                     if nd < 0:
                         fail("negative-automatic-N", "automatic N application of %r kg N/ha on %s" % (nd, numday(z)))
-            for r in cs["an"]:
-                if go_hex(r["post"]) < go_hex(r["pre"]):
-                    fail("negative-automatic-N", "NFERTSIM fell from %r to %r on %s" % (go_hex(r["pre"]), go_hex(r["post"]), numday(r["zeit"])))
+            for r in cs["af"]:
+                if go_hex(r["post"][1]) < go_hex(r["pools"][4]) or go_hex(r["post"][0]) < go_hex(r["pools"][2]) - 1e-12:
+                    fail("negative-automatic-N", "NFERTSIM/DSUMM fell from %r/%r to %r/%r on %s"
+                         % (go_hex(r["pools"][4]), go_hex(r["pools"][2]), go_hex(r["post"][1]), go_hex(r["post"][0]), numday(r["zeit"])))
     ctx.extra["oracle_checks"] = checked
     ctx.extra["oracle_runs"] = len(cases)
     return fails
 
 
+def org_oracle(cases, table):
+    """property-level checks of the organic fertiliser of automatic management (C10): after-harvest applications are
+    carried out exactly once, ORGDOY days after the harvest, with the table split; after-sowing ones once, ORGDOY days
+    after sowing; the pools receive the split (Nitro replay, bit-exact)"""
+    fails = []
+    tab = {r[0]: r[1:] for r in table}
+    checked = 0
+    def split(o):
+        if o[0] not in tab:
+            return dict(ndir=0.0, nsas=0.0, nlas=0.0)
+        ntot, ndir, nfst, nslo, nh4, loss = tab[o[0]]
+        g = float(o[1]) * ntot
+        nd = g * ndir * (1 - nh4 * loss)
+        return dict(ndir=nd, nsas=(g - nd) * nfst, nlas=(g - nd) * nslo)
+    for cs in cases:
+        def fail(key, what, **kw):
+            fails.append(Fail(key="organic-%s:%s:%s" % (key, sws_of(cs), cs["name"]), what=what, case=cs["name"], switches=sws_of(cs),
+                              crops=[(a, str(s), str(h), (w or {}).get("org")) for a, s, h, w in cs["crops"]], automan=list(cs["rows"].values()), **kw))
+        if cs["run"] is None or not cs["run"]["success"] or cs["log"] is None:
+            fail("run", "the run failed: %s" % ((cs["run"] or {}).get("err")))
+            continue
+        if not cs["sw"][1]:
+            continue
+        E = cs["E"]
+        harv = {h["akf"]: h for h in cs["harv"]}
+        fert = [(z, p) for (z, k, p) in cs["log"] if k == "fertilization"]
+        sowlog = [z for (z, k, p) in cs["log"] if k == "sowing"]
+        for k, (code, s, h, w) in enumerate(cs["crops"]):
+            o = (w or {}).get("org")
+            if not o or k not in harv and o[2] == "H":
+                continue
+            sp = split(o)
+            if o[2] == "H" and k >= 1:
+                hz = harv[k]["zeit"]
+                nxt = harv.get(k + 1, {}).get("zeit", E + 1)
+                due = hz + o[3]
+                want = 1 if (o[3] >= 1 and due <= E and due < nxt + 1 and harv[k]["adv"] == 1) else 0
+                if due == nxt:
+                    continue          # the day of the next harvest: the organic test runs before the cursor advances — fine either way
+                got = [(z, p) for (z, p) in fert if z == due and p.get("Fertilizer") == o[0]]
+                checked += 1
+                if len(got) != want:
+                    fail("after-harvest", "entry %d (%s %s, %d days after harvest on %s): %d log lines on %s, expected %d"
+                         % (k, o[0], o[1], o[3], numday(hz), len(got), numday(due), want))
+                for z, p in got:
+                    nd = go_hex(p["Ndirect"]) if "Ndirect" in p else 0.0
+                    if abs(nd - sp["ndir"]) > 1e-9 * (1 + abs(nd)):
+                        fail("amount", "entry %d: logged direct N %r, table formula %r" % (k, nd, sp["ndir"]))
+                # the split in the slots (tolerance; the bit-exact tie is in the correspondence)
+                ini = cs["init"]
+                if abs(go_hex(ini["nsas"][k]) - sp["nsas"]) > 1e-9 * (1 + sp["nsas"]) or abs(go_hex(ini["nlas"][k]) - sp["nlas"]) > 1e-9 * (1 + sp["nlas"]):
+                    fail("amount", "entry %d: fast/slow organic N %r/%r, table formula %r/%r" % (k, go_hex(ini["nsas"][k]), go_hex(ini["nlas"][k]), sp["nsas"], sp["nlas"]))
+        for r in cs["af"]:
+            if r["replay"] == "differs":
+                fail("pools", "day %s: Nitro on the pre-state with the organic split added by hand does not reproduce the real pools" % numday(r["zeit"]))
+            if r["replay"] == "ok":
+                checked += 1
+    return fails, checked
+
+
 LEVEL_TEXT = ("Machine-checked proof (Coq) of the decision logic: closed form of the sowing/harvest event sequence for every rotation "
-              "with ascending dates and every run length; sowing inside its window and after the previous harvest + 4 (or forced on "
-              "the window end), harvest not after the latest date, irrigation only inside the stage window and at most IRRMAX, "
-              "automatic N >= 0 — for ALL trigger sequences (all weather). The decisions of whole real runs over the 16 switch "
+              "with ascending dates and every run length; sowing on the first day of its window on which the modelled condition holds "
+              "(and later than previous harvest + 4), else on the window end; harvest on the first day the modelled condition holds, "
+              "else on the latest date; irrigation iff inside the stage window, mean available water below IRRLOW and dry forecast, "
+              "amount = 90 % of the modelled deficit clipped to IRRMAX; automatic N dose = max(0, demand - Nmin) — for every "
+              "sequence of daily states (all weather). The decisions of whole real runs over the 16 switch "
               "combinations are compared with the model in Coq each run, and the property is evaluated directly on the crop "
               "file, the management log and the probe.")
-LEVEL_NOTE = ("Partial in that the weather/state dependent trigger conditions are oracles (boolean inputs), the automan/crop file "
-              "reader is mirrored in python (window arrays compared with the real ones), and the crop-skip branch for organic "
-              "fertiliser after harvest is not modelled. Axioms: only those of Coq's Reals library (irrigation/N theorems).")
+LEVEL_NOTE = ("The trigger conditions are modelled (sowing, harvest, irrigation deficit, automatic N incl. organic fertiliser) and "
+              "tied bit-exact on the traced days; the harvest condition is sharp from the second development stage on (the "
+              "emergence-day temperature sum update is the crop model's, C09) and takes the number of stages from the crop parameter "
+              "file. The automan/crop file reader is mirrored in python (window and organic slots compared with the real arrays). "
+              "Axioms: only those of Coq's Reals library (irrigation/N theorems).")
 TECHNIQUE = "Coq proof of the decision rules and the rotation cursor (induction over the day loop) + whole-run decision correspondence + result-file oracle"
